@@ -350,21 +350,32 @@ struct AxisIn {
     size: Dimension,
     /// padding + border (+ scrollbar: none generated) in this axis
     inset: f32,
-    /// `inner_node_size` in this axis (content box) if the style size is a definite length
+    /// `inner_node_size` in this axis (content box) if the style size is a definite length (clamped by min/max size)
     inner: Option<f32>,
+    /// max-size in this axis
+    max: Dimension,
+    /// the content-box size auto-repetitions are counted against (CSS Grid §7.2.3.2: the definite size, else the max size, else
+    /// the min size; clamped, floored at padding + border, minus the inset) — computed here from the style alone
+    auto_fit_inner: Option<f32>,
+    /// min- or max-size set in this axis (the derived sizing request is only made without)
+    has_min_max: bool,
     stretch: bool,
 }
 
 fn axis_in(g: &Grid, horizontal: bool) -> AxisIn {
     let s = &g.style;
     let r = |x: LengthPercentage| x.into_raw().value();
-    let (tpl, autos, gap, size, inset, al) = if horizontal {
-        (s.grid_template_columns.clone(), s.grid_auto_columns.clone(), s.gap.width, s.size.width, r(s.padding.left) + r(s.padding.right) + r(s.border.left) + r(s.border.right), s.justify_content)
+    let (tpl, autos, gap, size, inset, al, min, max) = if horizontal {
+        (s.grid_template_columns.clone(), s.grid_auto_columns.clone(), s.gap.width, s.size.width, r(s.padding.left) + r(s.padding.right) + r(s.border.left) + r(s.border.right), s.justify_content, s.min_size.width, s.max_size.width)
     } else {
-        (s.grid_template_rows.clone(), s.grid_auto_rows.clone(), s.gap.height, s.size.height, r(s.padding.top) + r(s.padding.bottom) + r(s.border.top) + r(s.border.bottom), s.align_content)
+        (s.grid_template_rows.clone(), s.grid_auto_rows.clone(), s.gap.height, s.size.height, r(s.padding.top) + r(s.padding.bottom) + r(s.border.top) + r(s.border.bottom), s.align_content, s.min_size.height, s.max_size.height)
     };
-    let inner = if size.into_raw().tag() == CompactLength::LENGTH_TAG { Some(size.into_raw().value().max(inset) - inset) } else { None };
-    AxisIn { tpl, autos, gap, size, inset, inner, stretch: al.is_none() || al == Some(AlignContent::Stretch) }
+    let len = |d: Dimension| if d.into_raw().tag() == CompactLength::LENGTH_TAG { Some(d.into_raw().value()) } else { None };
+    // min wins over max (CSS 2.1 §10.4/§10.7)
+    let clamp = |v: f32| { let v = len(max).map_or(v, |m| v.min(m)); len(min).map_or(v, |m| v.max(m)) };
+    let inner = len(size).map(|v| clamp(v).max(inset) - inset);
+    let auto_fit_inner = len(size).or(len(max)).or(len(min)).map(|v| clamp(v).max(inset) - inset);
+    AxisIn { tpl, autos, gap, size, inset, inner, max, auto_fit_inner, has_min_max: len(min).is_some() || len(max).is_some(), stretch: al.is_none() || al == Some(AlignContent::Stretch) }
 }
 
 fn run_grid(g: &Grid) -> Result<(AxisObs, AxisObs, Vec<(u16, u16, u16, u16)>, Layout), String> {
@@ -479,7 +490,7 @@ fn emit_grid(out: &mut Out, g: &Grid) {
     let cols = axis_in(g, true);
     let rows = axis_in(g, false);
     // explicit counts through the function hook, with the container size the layout will use
-    let auto_fit = Size { width: cols.inner, height: rows.inner };
+    let auto_fit = Size { width: cols.auto_fit_inner, height: rows.auto_fit_inner };
     let res = run_grid(g);
     let (oc, or, items, layout) = match res {
         Ok(x) => x,
@@ -501,11 +512,13 @@ fn emit_grid(out: &mut Out, g: &Grid) {
         }
         // obs line: everything the monitor needs + the observation; the model has nothing to add (answers ok)
         let req = format!(
-            "obs {} {} {} {} {} {} {} | {}",
+            "obs {} {} {} {} {} {} {} {} {} | {}",
             name,
             dim_tok(a.size),
+            dim_tok(a.max),
             lp_tok(a.gap),
             hxo(a.inner),
+            hxo(a.auto_fit_inner),
             occ_tok,
             fns_tok(&a.autos),
             template_tok(&a.tpl),
@@ -523,7 +536,7 @@ fn emit_grid(out: &mut Out, g: &Grid) {
             out.impl_violation(format!("sig:c09-explicit-count {name}: reported {} but compute_explicit_grid_size_in_axis gives {n}", o.expl));
         }
         // derived sizing request (definite container size in this axis, nothing percentage-dependent on the other axis)
-        if let Some(inner) = a.inner {
+        if let (Some(inner), false) = (a.inner, a.has_min_max) {
             let occ = occupied.clone();
             let tracks = hook::init_tracks((o.neg, o.expl, o.pos), &a.tpl, &a.autos, a.gap, &move |i| occ.contains(&i));
             let spans: Vec<(u16, u16)> = items.iter().map(|it| if horizontal { (it.0 - 1, it.1 - 1) } else { (it.2 - 1, it.3 - 1) }).collect();
@@ -600,6 +613,13 @@ fn gen_grid(r: &mut Rng) -> Grid {
     }
     if r.chance(1, 3) {
         st.grid_auto_rows = (0..1 + r.below(2)).map(|_| g_fn(r)).collect();
+    }
+    // one grid in four has min and/or max sizes (lengths): auto-repetitions are counted against the size, else the max size, else
+    // the min size (seeded change C09-4 swapped the last two)
+    if r.chance(1, 4) {
+        let mm = |r: &mut Rng| if r.chance(1, 2) { Dimension::length(*r.pick(&[20.0f32, 40.0, 60.0, 90.0, 150.0, 240.0])) } else { Dimension::auto() };
+        st.min_size = Size { width: mm(r), height: mm(r) };
+        st.max_size = Size { width: mm(r), height: mm(r) };
     }
     // length gaps mostly (percentage gaps are re-resolved for indefinite containers)
     st.gap = Size { width: g_gap(r), height: g_gap(r) };
